@@ -692,7 +692,9 @@ var $makeSlice = (typ, length, capacity = length) => {
 
 var $structTypes = {};
 var $structType = (pkgPath, fields) => {
-    var typeKey = $mapArray(fields, f => { return f.name + "," + f.typ.id + "," + f.tag; }).join("$");
+    // Embedded fields and the package of non-exported field names are part of
+    // a struct type's identity. pkgPath is empty unless a field is unexported.
+    var typeKey = pkgPath + "$" + $mapArray(fields, f => { return f.name + "," + f.typ.id + "," + f.tag.replace(/\\/g, "\\\\").replace(/\$/g, "\\$") + "," + (f.embedded ? "1" : "0"); }).join("$");
     var typ = $structTypes[typeKey];
     if (typ === undefined) {
         var string = "struct { " + $mapArray(fields, f => {
